@@ -125,7 +125,7 @@ def check(world, tier):
                 names = [eng.sym_names[s] for s, _ in aa[1]] + [eng.sym_names[s] for s, _ in bb[1]]
                 is_len_payload = any(isinstance(n, tuple) and n and n[0] == "len" and isinstance(n[1], tuple) and n[1] and n[1][0] == "app" for n in names)
                 is_queue_len = any(isinstance(n, tuple) and n and n[0] == "phi" and len(n) == 5 and n[4] and n[4][-1] == "$len" for n in names) or \
-                    any(isinstance(n, str) and n.startswith("trunc#") for n in names)
+                    any(((isinstance(n, str) and n.startswith("trunc#")) or (isinstance(n, tuple) and n and n[0] == "trunc")) for n in names)
                 if is_len_payload and op in ("Lt", "Ge", "Le", "Gt"):
                     # "not short" edge: the one on which  len(data) < blk  is false
                     lt_true = (op == "Lt" and truth) or (op == "Ge" and not truth)
